@@ -283,11 +283,20 @@ pub proof fn lemma_rm_pow2_div(x: int, a: int, b: int)
     assert(x == (pc * k) * pa) by (nonlinear_arith) requires x == (pa * pc) * k;
     vstd::arithmetic::div_mod::lemma_mod_multiples_basic(pc * k, pa);
 }
+/// what the shortcut needs for b = multiplicity of 2 in f == 2^b and z = multiplicity of 2 in x0
+pub open spec fn rm_pow2_ok(x0: int, f: int, b: int, z: int) -> bool {
+    &&& b >= 1
+    &&& z / b >= 0
+    &&& (z / b) * b <= z
+    &&& x0 / pow2((z / b) * b) >= 1
+    &&& rm_post(x0, f, z / b, x0 / pow2((z / b) * b))
+}
 /// the shortcut: f == 2^bits (bits >= 1), z the multiplicity of 2 in x0, e == z / bits, x1 == x0 >> (e * bits)
 pub proof fn lemma_rm_pow2_case(x0: int, f: int, bits: int, z: int, e: int, x1: int)
-    requires x0 >= 1, bits >= 1, f == pow2(bits), im_is_tz(x0, z), e == z / bits, x1 == x0 / pow2(e * bits),
-    ensures rm_post(x0, f, e, x1), e * bits <= z, e >= 0, x1 >= 1,
+    requires x0 >= 1, bits >= 0, f == pow2(bits), f >= 2, im_is_tz(x0, z), e == z / bits, x1 == x0 / pow2(e * bits),
+    ensures rm_post(x0, f, e, x1), e * bits <= z, e >= 0, x1 >= 1, bits >= 1,
 {
+    if bits == 0 { assert(pow2(0) == 1); }
     vstd::arithmetic::div_mod::lemma_fundamental_div_mod(z, bits);
     vstd::arithmetic::div_mod::lemma_div_pos_is_pos(z, bits);
     let s = e * bits;
